@@ -125,7 +125,8 @@ func findExec(c *Check, rule string) *execAnchors {
 	// output checks: caller of RunCommand that ranges over Target.OutputChecks
 	// exec command: caller of RunCommand that calls context.WithTimeout
 	for _, fn := range c.G.CallerFuncs(a.RunCommand) {
-		if len(callsNamed(fn, "context.WithTimeout")) > 0 {
+		// the timeout may be applied in a helper that derives the command's context
+		if len(callsNamedDeep1(fn, "context.WithTimeout")) > 0 {
 			a.ExecCommand = fn
 		} else if readsField(c, fn, fk("model.Target", "OutputChecks")) {
 			a.OutputChecks = fn
